@@ -20,7 +20,7 @@ REQUIRED_COUNTERS = ["projects", "roundtrips_compared", "save_is_pure_evaluation
 WORKERS = {"quick": 4, "thorough": 16}
 
 
-def plan(tier, seed):
+def _plan_core(tier, seed):
     n = 4 if tier == "quick" else 16
     per = 800 if tier == "quick" else 5000
     return [{"tier": tier, "seed": seed, "start": i * per, "count": per, "shard": i} for i in range(n)]
@@ -85,6 +85,11 @@ def check_case(res, c, tier):
 
 
 def run_shard(spec_, res):
+    if spec_.get("part") == "soak":
+        from .. import soak
+        for s_ in spec_["soak_seeds"]:
+            soak.run(res, s_, spec_["tier"], PROPERTY, SOAK_KINDS, spec_["steps"])
+        return
     monitors.install(snapshot_fn=_snap_any)
     tier = spec_["tier"]
     for i in range(spec_["start"], spec_["start"] + spec_["count"]):
@@ -116,3 +121,16 @@ def replay(case, res):
     monitors.install(snapshot_fn=_snap_any)
     c = workload.project_case(case["case_seed"], case["index"], case.get("tier", "quick"))
     check_case(res, c, case.get("tier", "quick"))
+
+
+# ------------------------------------------------------------------ soak slice (rvmon.soak): long mixed histories on a pool of objects
+SOAK_KINDS = ['roundtrip']
+
+
+def plan(tier, seed):
+    specs = _plan_core(tier, seed)
+    k = 2 if tier == "quick" else 8
+    for i in range(k):
+        specs.append({"tier": tier, "part": "soak", "soak_seeds": [seed * 100003 + 1000 * i + j for j in range(8 if tier == "quick" else 40)],
+                      "steps": 150 if tier == "quick" else 300, "seed": seed, "shard": 1000 + i})
+    return specs
